@@ -21,7 +21,12 @@ def main(argv=None):
     a = ap.parse_args(argv)
     seed = int(os.environ.get('VERIF_SEED', '0') or 0)
     try:
-        core.import_kyupy()
+        try:
+            core.import_kyupy()
+        except core.HarnessError:
+            raise
+        except Exception as e:  # noqa
+            raise core.HarnessError(f'kyupy cannot be imported: {type(e).__name__}: {e}')
         if a.replay:
             rep, same, res, rp = core.replay_file(a.replay, quiet=a.quiet)
             if rep:
@@ -48,6 +53,11 @@ def main(argv=None):
         return code
     except core.HarnessError as e:
         print('# HARNESS ERROR: ' + str(e))
+        return 2
+    except Exception:  # noqa - anything unexpected is a harness error, never a verdict
+        import traceback
+        print('# HARNESS ERROR (unexpected exception):')
+        print('#   ' + traceback.format_exc().replace('\n', '\n#   '))
         return 2
 
 
